@@ -63,6 +63,7 @@ type VPtr struct {
 	Nil    string // Bool term
 	Origin int
 	U      string // identity term (sort U) for comparisons of unknown pointers
+	IDU    bool   // identity is U (value obtained from an interface by type assertion)
 }
 
 type VStruct struct{ F []Val }
@@ -939,7 +940,11 @@ func (w *World) fold(s *State, v Val) string {
 	case VOpaque:
 		return x.T
 	case VFunc:
-		return "u_nil"
+		t := "u_nil"
+		for i := len(x.Bindings) - 1; i >= 0; i-- {
+			t = app("u_cons", w.fold(s, x.Bindings[i]), t)
+		}
+		return t
 	case nil:
 		return "u_nil"
 	}
@@ -957,6 +962,9 @@ func (w *World) arrVer(s *State, a *ArrObj) string {
 
 func (w *World) ptrID(p VPtr) string {
 	var id string
+	if p.IDU && p.U != "" && len(p.Path) == 0 {
+		return p.U
+	}
 	switch {
 	case p.Arr != nil:
 		id = app("u_fld", p.Arr.Sym, p.Idx)
